@@ -841,6 +841,14 @@ func c19MapRaceChild(c *Ctx) {
 	h := &c19Hammer{res: &c19HResult{Rounds: c.N, Counts: map[string]int{}}, out: c.Out, rnd: c.Rnd, seen: map[string]bool{}}
 	h.flush()
 	for r := 0; r < c.N; r++ {
+		h.runRound("c19-maprace", r, func() { h.mapRaceRound(r) })
+	}
+	h.res.Done = true
+	h.flush()
+}
+
+func (h *c19Hammer) mapRaceRound(r int) {
+	{
 		sc := h.build(r)
 		deputynode.SetSelfNodeKey(sc.w.DeputyKeys[0])
 		a := sc.w.NewNode(c19Deputies)
@@ -877,10 +885,6 @@ func c19MapRaceChild(c *Ctx) {
 		atomic.StoreInt32(&stop, 1)
 		rwg.Wait()
 		h.count("maprace:GetActDatabase-calls", int(reads))
-		h.res.Completed++
 		a.Close()
-		h.flush()
 	}
-	h.res.Done = true
-	h.flush()
 }
